@@ -5,6 +5,7 @@ from concurrent.futures import ThreadPoolExecutor
 
 import vlib
 from vlib import cstring, clist
+from props import agent_lib
 
 SHARD = 4000
 
@@ -49,8 +50,29 @@ def spec_verdict(c):
     return c["dfs"]
 
 
-def run(ctx, replay_cases=None):
-    ctx.proofs(extra=["Graph/AcceptCheck.vo"])
+def agent_clause(ctx, seed=None):
+    """Agent-level clause: refused graphs (cycle / self-dependency / missing name) through the real agent.Run in process
+    (harness/cmd/agentrun); monitor "refused run: no executor event, no handler, empty history, no socket activity", and
+    the observation against Agent/Run.v (C14_refused_is_silent).  A few accepted graphs run as control."""
+    if seed is not None:
+        ctx.seed, keep = seed, ctx.seed
+    acases = agent_lib.run_cases(ctx, ["refused", "normal"])
+    if seed is not None:
+        ctx.seed = keep
+    if acases is None:
+        return
+    for c in acases:
+        why = agent_lib.monitor(c)
+        if why:
+            ctx.fail("monitor", why, c, cls={"class": "agent-" + c["class"], "sub": c["sub"]})
+    agent_lib.check_model(ctx, acases, tag="c14_agent")
+    ctx.cov["agent_runs"] = agent_lib.summary(acases)
+    ctx.cov["agent_runs_refused_silent"] = len([c for c in acases if c["class"] == "refused" and not c["log"] and not c["hist_files"]])
+    ctx.cov["traces_validated_against_impl_agent"] = len(acases)
+
+
+def run(ctx, replay_cases=None, agent_seed=None):
+    ctx.proofs(extra=["Graph/AcceptCheck.vo"] + agent_lib.EXTRA_VO)
     tool, out, _ = vlib.go_build("graph", ctx.scratch)
     if tool is None:
         ctx.fail("correspondence", "harness does not build against /repo", {"log": out[-2000:]})
@@ -82,6 +104,7 @@ def run(ctx, replay_cases=None):
     bad = model_check(ctx, cases)
     for c, m in bad:
         ctx.fail("correspondence", "model verdict %d differs from implementation verdict %d" % (m, c["verdict"]), c)
+    agent_clause(ctx, agent_seed)
     verd = {}
     for c in cases:
         verd[c["verdict"]] = verd.get(c["verdict"], 0) + 1
@@ -142,6 +165,7 @@ def shrink(tool, ctx, c):
 
 def replay(ctx, path):
     body = json.load(open(path))
+    agent_seed = body.get("seed") if any(isinstance(f.get("case"), dict) and "log" in f["case"] for f in body.get("failures", [])) else None
     cases = [f["case"] for f in body.get("failures", []) if isinstance(f.get("case"), dict) and "names" in f["case"]]
     if "failing_input" in body and isinstance(body["failing_input"], dict):
         cases.append(body["failing_input"])
@@ -159,4 +183,4 @@ def replay(ctx, path):
     if rc != 0:
         ctx.fail("correspondence", "graph driver failed", {"log": out[-2000:]})
         return ctx.finish()
-    return run(ctx, replay_cases=vlib.read_jsonl(p))
+    return run(ctx, replay_cases=vlib.read_jsonl(p), agent_seed=agent_seed)
